@@ -10,6 +10,7 @@
 //!     the observed number of temporaries of the current frame (`sp - (bp + 4)`; `sp - entry sp`
 //!     for entry code; below the argument block at CALL/TCALL; `pre` at VARARG/ENTER) — the
 //!     verifier's abstract stack at that offset must have exactly that height.
+use marwood::vm::environment::BindingSource;
 use marwood::vm::opcode::OpCode;
 use marwood::vm::vcell::VCell;
 use marwood::vm::Vm;
@@ -42,6 +43,11 @@ struct Obs {
     max: BTreeMap<String, usize>,
     steps: u64,
     undecodable: u64,
+    /// CALL / TCALL / ENTER steps executed, and those at which `acc` designated a closure whose lambda is not a
+    /// lambda cell holding procedure code, or a bare lambda that is entry code (`CalleeOk` of
+    /// lean/Marwood/Lemmas/ConcreteLawsOps.lean must hold at every one of them)
+    callee_sites: u64,
+    callee_bad: u64,
 }
 
 /// observe the state before one instruction
@@ -62,6 +68,26 @@ fn observe(vm: &Vm, entry_sp: usize, obs: &mut Obs) {
             return;
         }
     };
+    if matches!(op, OpCode::CallAcc | OpCode::TCallAcc | OpCode::Enter) {
+        obs.callee_sites += 1;
+        let acc = _acc.clone();
+        let target = match &acc {
+            VCell::Ptr(p) => cells.get(*p).cloned(),
+            other => Some(other.clone()),
+        };
+        let proc_at = |l: usize| matches!(cells.get(l), Some(VCell::Lambda(lm)) if !is_entry_code(&lm.bc));
+        let ok = match target {
+            Some(VCell::Closure(l, _)) => proc_at(l),
+            Some(VCell::Lambda(_)) => match &acc {
+                VCell::Ptr(p) => proc_at(*p),
+                _ => false,
+            },
+            _ => true,
+        };
+        if !ok {
+            obs.callee_bad += 1;
+        }
+    }
     let st = vm.verif_stack();
     let sp = st.get_sp();
     let key = code_string(&lam.bc);
@@ -194,7 +220,7 @@ fn main() {
             let mut g = Gen::new(seed() ^ 0xbc0de);
             let mut obs = Obs::default();
             // every distinct code object found in any heap: code string -> (top_level, argc, vararg)
-            let mut found: BTreeMap<String, (bool, usize, bool)> = BTreeMap::new();
+            let mut found: BTreeMap<String, (bool, usize, bool, bool)> = BTreeMap::new();
             let mut sessions: Vec<Vec<String>> = fixed_sessions()
                 .into_iter()
                 .map(|s| s.into_iter().map(|f| f.to_string()).collect())
@@ -219,12 +245,14 @@ fn main() {
                 heaps += 1;
                 for c in vm.verif_heap().verif_cells() {
                     if let VCell::Lambda(l) = c {
-                        found.entry(code_string(&l.bc)).or_insert((l.top_level, l.args.len(), l.is_vararg));
+                        let iof = l.envmap.get_map().iter().any(|(_, src)| matches!(src, BindingSource::IofArgument(_)));
+                        let e = found.entry(code_string(&l.bc)).or_insert((l.top_level, l.args.len(), l.is_vararg, iof));
+                        e.3 = e.3 || iof;
                     }
                 }
             }
             let mut maxh = 0usize;
-            for (code, (top, argc, va)) in &found {
+            for (code, (top, argc, va, iof)) in &found {
                 let bc_first_entry = !(code.starts_with("openter") || code.starts_with("opvarArg"));
                 let kind = if bc_first_entry { "entry" } else { "proc" };
                 // static shape facts of the real object: a variadic lambda starts with VARARG, and only then
@@ -234,7 +262,7 @@ fn main() {
                 if let Some(m) = obs.max.get(code) {
                     maxh = maxh.max(*m);
                 }
-                writeln!(out, "vbc {}\tok {} {} top={} argc={} va={} shape={}", code, kind, seen, *top as u8, argc, *va as u8, shape_ok as u8).unwrap();
+                writeln!(out, "vbc {}\tok {} {} top={} argc={} va={} shape={} iof={}", code, kind, seen, *top as u8, argc, *va as u8, shape_ok as u8, *iof as u8).unwrap();
             }
             let mut nat = 0usize;
             for (code, offs) in &obs.at {
@@ -245,6 +273,8 @@ fn main() {
                     }
                 }
             }
+            // implementation-side oracle: at every executed CALL / TCALL / ENTER the callee was `CalleeOk`
+            writeln!(out, "#oracle callee-ok-at-{}-call-sites\t{}\t0", obs.callee_sites, obs.callee_bad).unwrap();
             eprintln!(
                 "sessions: {} heaps: {} distinct code objects: {} observed (code,offset,height) triples: {} steps: {} undecodable: {} max observed temporaries: {}",
                 sessions.len(), heaps, found.len(), nat, obs.steps, obs.undecodable, maxh
